@@ -133,7 +133,7 @@ def run(ck: Check) -> None:
         # file level: canonical / re-laid-out / broken files
         import random as _random
         from .. import jsontext
-        fb = rng.choice([gen.oracle_bytes(env), jsontext.rand_text(_random.Random(i), env).encode("utf-8", "surrogatepass"), b"{", b"", None, gen.oracle_bytes({"signed": 1}), b"[1, 2]"]) if rng.random() < 0.5 else gen.oracle_bytes(env)
+        fb = rng.choice([gen.oracle_bytes(env), jsontext.rand_text(_random.Random(i), env, float_variants=False).encode("utf-8", "surrogatepass"), b"{", b"", None, gen.oracle_bytes({"signed": 1}), b"[1, 2]"]) if rng.random() < 0.5 else gen.oracle_bytes(env)
         gcases.append(Case("gpg", ["file", sslib, oh, sg, q, fb, fpr if not isinstance(fpr, proto.Opaque) else FPR], tag="gpg-path:file", group=5000 + i))
         dv = rng.choice([data, bytearray(data), b"", data.decode("utf-8", "replace"), None, 5, [1], proto.Opaque(2)]) if rng.random() < 0.4 else data
         gcases.append(Case("gpg", ["via", sslib, oh, sg, q, dv, fpr, rng.random() < 0.5], tag="gpg-path:sign_via_gpg", group=5000 + i))
